@@ -18,6 +18,8 @@ structure Transc (K : Type) where
   atan : K → K
   rpow : K → K → K
   pi : K
+  sin : K → K
+  cos : K → K
 
 variable {K : Type} [Field K] [LinearOrder K] [IsStrictOrderedRing K]
 
@@ -39,5 +41,9 @@ structure Transc.Lawful (T : Transc K) : Prop where
   sqrt_nonneg : ∀ x, 0 ≤ T.sqrt x
   sqrt_mono : ∀ x y, 0 ≤ x → x ≤ y → T.sqrt x ≤ T.sqrt y
   pi_pos : 0 < T.pi
+  -- real powers (added for C17; all hold of `Real.rpow`)
+  rpow_nonneg : ∀ x y, 0 ≤ x → 0 ≤ T.rpow x y
+  rpow_one_left : ∀ y, T.rpow 1 y = 1
+  rpow_le_self : ∀ x y, 0 ≤ x → x ≤ 1 → 1 ≤ y → T.rpow x y ≤ x
 
 end Synphot
